@@ -23,13 +23,15 @@ decimals, so a printed value `d` is accepted iff it is a correct rounding of the
 Total, Min, Max, Elapsed, Start, End: |d-q| <= 5e-4 (the doubles are exact on the 1/4 us grid);
 Mean, Median (`round(x, 3)` of a possibly non-dyadic quotient, then `%8.3f`): |d-q| <= 5e-4 + 1e-9;
 Time share (`round(x, 2)`, `%5.2f`) and Active percentage (`%5.2f`): |d-q| <= 5e-3 + 1e-9;
-StDev (irrational; oracle only, against `statistics.stdev`): 5e-4 + 1e-6.
+StDev (irrational): |d - sqrt(var)| <= 5e-4 + 1e-6 for the model's exact sample variance `var`, and the same
+tolerance against `statistics.stdev` in the oracle.
 """
 from __future__ import annotations
 
 import contextlib
 import io
 import itertools
+import math
 import os
 import shutil
 import statistics
@@ -56,6 +58,8 @@ THEOREMS = [
     "AiuVerif.C12.elapsed_active_spec",
     "AiuVerif.C12.rows_ordered",
     "AiuVerif.C12.run_ok_iff",
+    "AiuVerif.C12.variance_spec",     # StDev^2: 0 for one call, >= 0, = 0 iff all calls equal
+    "AiuVerif.C12.variance_sumsq",    # (n-1) StDev^2 = sum d^2 - n mean^2
 ]
 RULE = ("stage level: all event streams of length <= L (L=4 quick, 5 thorough) over a 13-letter alphabet "
         "(three spellings of one masked kernel name, a second kernel with a tying total, a second pid, "
@@ -76,15 +80,17 @@ TRUSTED = [
     "quotients are compared with the rounding tolerance of the printed format",
 ]
 ASSUMPTIONS = [
-    "StDev is irrational and not in the Lean model: it is checked by the oracle only, against statistics.stdev "
-    "(0.0 for single-call kernels), tolerance 5e-4 + 1e-6",
+    "StDev is irrational: the Lean model carries its square (exact sample variance; 0 for single-call kernels); the "
+    "printed value is compared with sqrt(var) and with statistics.stdev, tolerance 5e-4 + 1e-6",
     "printed values are compared as correct roundings of the exact model value (3 decimals: 5e-4; 2 decimals: 5e-3)",
     "elapsed_active_spec assumes 0 <= end and start <= 1e30 for the slices of the rank (the initial values of "
     "update_max_ts / update_min_ts); the pipeline asserts ts >= 0 upstream",
     "<out>_ts_analysis.csv (TS deltas) is outside the property and not modelled beyond its KeyError branch",
 ]
 NOT_YET_PROVED = [
-    "StDev column (irrational; oracle-only against statistics.stdev)",
+    "StDev itself is irrational: the model and the theorems carry its square (sample variance, variance_spec / "
+    "variance_sumsq); the printed StDev is compared with the square root of the model's exact variance (tolerance "
+    "5e-4 + 1e-6) and, independently, with statistics.stdev by the oracle",
     "the 2/3-decimal rounding of the printed values (round(x,3), %8.3f, %5.2f) is a tolerance of the "
     "correspondence, the theorems speak about the exact values",
 ]
@@ -96,7 +102,7 @@ LEVEL_TEXT = ("Lean theorems over an executable model of calculate_stats / Stats
               "elapsed/active formula with elapsed > 0. Tied to the code by running the real stage (and the whole CLI "
               "pipeline) and the compiled model on the same inputs and diffing the parsed CSV rows.")
 LEVEL_NOTE = ("Trusted: Lean kernel; axioms propext, Classical.choice, Quot.sound; hand-written model validated by "
-              "differential runs; printed decimals compared as roundings; StDev oracle-only.")
+              "differential runs; printed decimals compared as roundings; StDev through its square (exact variance in the model, float sqrt in the comparison).")
 TECHNIQUE = "Lean 4 proof (induction over the slice list, fold invariants) + model/implementation correspondence run"
 
 TOL3 = F(5, 10 ** 4)
@@ -349,7 +355,7 @@ def parse_model(ans):
     for r in [x for x in s[2:].split(";") if x]:
         f = r.split(",")
         rows.append({"pid": int(f[0]), "name": unenc(f[1]), "calls": int(f[2]), "total": F(f[3]), "mean": F(f[4]),
-                     "median": F(f[5]), "min": F(f[6]), "max": F(f[7]), "share": F(f[8])})
+                     "median": F(f[5]), "min": F(f[6]), "max": F(f[7]), "share": F(f[8]), "var": F(f[9])})
     for r in [x for x in a.split(";") if x]:
         f = r.split(",")
         active.append({"pid": int(f[0]), "total": F(f[1]), "elapsed": F(f[2]), "start": F(f[3]), "stop": F(f[4]),
@@ -385,12 +391,15 @@ def canon_pair(model, real, ordered=True):
         real = dict(real, files=dict(real["files"], rows=sorted(real["files"]["rows"],
                                                                 key=lambda r: (r["pid"], -r["total"], r["name"]))))
     for m in model["rows"]:
-        cm["rows"].append([m["pid"], m["name"], m["calls"]] + [rat(m[c]) for c in ROW_TOL])
+        cm["rows"].append([m["pid"], m["name"], m["calls"]] + [rat(m[c]) for c in ROW_TOL] + ["var=" + rat(m["var"])])
     for i, r in enumerate(real["files"]["rows"]):
         m = model["rows"][i] if i < len(model["rows"]) else None
+        # the printed StDev (3 decimals) against the square root of the model's exact sample variance
+        sd_ok = m is not None and abs(float(r["stdev"]) - math.sqrt(float(m["var"]))) <= float(TOL3) + 1e-6
         cr["rows"].append([r["pid"], r["name"], r["calls"]] +
                           [rat(m[c]) if (m is not None and near(r[c], m[c], t)) else "printed:" + str(float(r[c]))
-                           for c, t in ROW_TOL.items()])
+                           for c, t in ROW_TOL.items()] +
+                          ["var=" + rat(m["var"]) if sd_ok else "printed stdev:" + str(float(r["stdev"]))])
     for m in model["active"]:
         cm["active"].append([m["pid"]] + [rat(m[c]) for c in AROW_TOL])
     for i, r in enumerate(real["files"]["active"]):
